@@ -346,7 +346,7 @@ def run(rep: Report, tier: str) -> None:
         leaf_case(rep, rec, rng)
     rep.exhaustive = not quick
     init_statistics(rep)
-    composite_cases(rep, rng, 6 if quick else 40)
+    composite_cases(rep, rng, 6 if quick else 400)
     rep.traces = rep.evaluations
     rep.rule = "every (leaf module, option assignment) emitted by TLC (quick: 25% of the Conv1d product) x train/eval x two input shapes; composite modules with random options; non-trivial = all"
     rep.sample(cfgs[0])
